@@ -24,7 +24,7 @@ from harness import common
 from harness.common import Check
 
 REGISTRY = dict(
-    text=("Proof (protocol model, unbounded): for every worker behaviour, every number of workers, every parent program of sends/receives and EVERY schedule of parent/worker steps, "
+    text=("Proof (protocol model, unbounded; atomic public calls only, legal argument shapes): for every worker behaviour, every number of workers, every parent program of sends/receives and EVERY schedule of parent/worker steps, "
           "the values the parent receives equal those of the sequential DummyVecEnv-order run, in sub-environment order (schedule independence by per-pipe FIFO + index-order "
           "receive); no deadlock from any reachable configuration when every receive has its send; send-all/receive-all methods (step, reset) equal the Dummy loop for all n_envs. "
           "Tie: communication skeleton of every SubprocVecEnv method and of the worker loop regenerated from the AST; lock-step differential run of real SubprocVecEnv vs DummyVecEnv "
@@ -34,6 +34,12 @@ REGISTRY = dict(
           "(every recv has its send); for send-all/receive-all programs this is proved for all n, for index-subset programs (get_attr/set_attr/env_method) it is evaluated per generated case. "
           "The replies equal the DummyVecEnv loops of Model/VecEnv.v (C01) by theorem for step() and reset() (C02_step_eq_dummy_step, C02_reset_eq_dummy_reset); attribute/method calls equal the "
           "for-i-in-targets loop (dloop) by theorem. "
+          "RESTRICTIONS (partial): the calls are the atomic public calls named by the property (reset, step, seed, set_options, get_attr, set_attr, env_method, env_is_wrapped); "
+          "a history that interleaves step_async / another call / step_wait is NOT covered - there the two classes really differ (the get_attr receive takes the step reply waiting in the pipe; "
+          "Props/C02.v ex_async_interleaving_mixes_replies shows the model doing the same) - reported to the lead as a finding candidate; has_attr and get_images are tied by their skeleton only. "
+          "Illegal calls are excluded by hypothesis (call_targets_ok: indices in range, one action / options entry per sub-environment): on a too-short action list DummyVecEnv raises IndexError while "
+          "SubprocVecEnv.step blocks (zip) - outside the quantifier, reported. C02_worker_determinism holds for any deterministic worker function (the modelling assumption), it is not a fact about the code. "
+          "Delays are injected in the sub-environments' step() and reset() only. "
           "Quick tier: start method fork, n_envs 1-3; forkserver/spawn only in the thorough tier. Known finding F10 (reward dtype) reproduced from corpus/C02.jsonl. "
           "All C02 theorems are closed under the global context."),
     technique="machine-checked proof in Coq (simulation invariant over all schedules, induction over programs) + regenerated communication skeleton + differential lock-step correspondence with injected delays",
@@ -107,7 +113,8 @@ def gen_case(rng, idx, start_method="fork"):
         else:
             sleeps.append({})
     wrapped = [rng.random() < 0.4 for _ in range(n)]
-    return {"obs_kind": obs_kind, "act_kind": act_kind, "n": n, "scripts": scripts, "calls": calls, "sleeps": sleeps, "wrapped": wrapped,
+    reset_delays = [0.0 if pattern == "none" else rng.choice([0.0, 0.004, 0.012]) for _ in range(n)]
+    return {"obs_kind": obs_kind, "act_kind": act_kind, "n": n, "scripts": scripts, "calls": calls, "sleeps": sleeps, "wrapped": wrapped, "reset_delays": reset_delays,
             "delay_pattern": pattern, "start_method": start_method, "schedule": [rng.randrange(64) for _ in range(400)], "id": idx}
 
 
@@ -128,14 +135,25 @@ def wrapper_class():
     return TimeLimit
 
 
-def make_fn(script, wrapped, **kw):
-    """constructor of one sub-environment, optionally wrapped in a pass-through gym wrapper"""
+def make_fn(script, wrapped, reset_delay=0.0, **kw):
+    """constructor of one sub-environment, optionally wrapped in a pass-through gym wrapper; reset_delay makes reset() slow
+    (ScriptedEnv's own sleep plan only delays step())"""
     def _f():
+        import time
+
+        import gymnasium as gym
         from gymnasium.wrappers import TimeLimit
 
         from harness import scripted_envs as se
 
         env = se.ScriptedEnv(script, **kw)
+        if reset_delay:
+            class SlowReset(gym.Wrapper):
+                def reset(self, **kwargs):
+                    time.sleep(reset_delay)
+                    return self.env.reset(**kwargs)
+
+            env = SlowReset(env)
         return TimeLimit(env, max_episode_steps=10**9) if wrapped else env
 
     return _f
@@ -147,7 +165,8 @@ def make_pair(case):
     kw = dict(obs_kind=case["obs_kind"], act_kind=case["act_kind"])
     wr = case.get("wrapped") or [False] * case["n"]
     dummy = DummyVecEnv([make_fn(sc, wr[i], env_id=i, **kw) for i, sc in enumerate(case["scripts"])])
-    sub = SubprocVecEnv([make_fn(sc, wr[i], env_id=i, sleep_plan=case["sleeps"][i], **kw) for i, sc in enumerate(case["scripts"])],
+    rd = case.get("reset_delays") or [0.0] * case["n"]
+    sub = SubprocVecEnv([make_fn(sc, wr[i], reset_delay=rd[i], env_id=i, sleep_plan=case["sleeps"][i], **kw) for i, sc in enumerate(case["scripts"])],
                         start_method=case.get("start_method", "fork"))
     return dummy, sub
 
